@@ -43,6 +43,7 @@ class Job:
     tier: str = "quick"                           # quick jobs also run in thorough
     restrict_fp: list = field(default_factory=list)  # --restrict-function-pointer args
     extra_gi: list = field(default_factory=list)  # extra goto-instrument flags
+    pre_unwindset: list = field(default_factory=list)  # loops fully unwound (with unwinding assertions) BEFORE contract instrumentation, "fn.N:k"
     no_dfcc: bool = False                         # plain harness proof (no contracts) e.g. lemma-style S2
     kind: str = "cbmc"                            # cbmc | native (S5/S7 tools)
     native_cmd: Optional[list] = None
@@ -394,6 +395,14 @@ def instrument_job(job, a, wd):
         rc, o, e = run(cmd, timeout=300)
         if rc != 0:
             raise Undecided("restrict-function-pointer failed: " + (e or o)[-600:])
+        cur = r
+    if job.pre_unwindset:
+        # constant-trip-count inner loops are unwound first (unwinding assertions on), so that only the loops that carry a
+        # contract remain: dfcc rejects contracts on loops nested in a loop whose body declares the inner loop variable
+        r = os.path.join(wd, "u.gb")
+        rc, o, e = run(["goto-instrument", "--unwindset", ",".join(job.pre_unwindset), "--unwinding-assertions", cur, r], timeout=300)
+        if rc != 0:
+            raise Undecided("pre-unwinding failed: " + (e or o)[-600:])
         cur = r
     if job.nondet_static:
         r = os.path.join(wd, "ns.gb")
